@@ -33,8 +33,9 @@ def check_positions(ctx, src, rq=None):
                     (isinstance(c.func, ast.Attribute) and c.func.attr in ("read", "readline", "seek", "tell") and norm(c.func.value) == "stream"):
                 q = m.qual_of(c)
                 ok = q in ("Reader.peekc", "Reader.peeking", "Reader._set_source")
-                ctx.check(ok, "POS-OWNER", f"{m.rel}|{q}|{norm(c)}", f"`{q}` reads the underlying stream directly, bypassing getc's position bookkeeping", m.rel, c.lineno,
-                          witness="a shebang line skipped with stream.readline() leaves every line number one too small", detail="peekc / peeking / _set_source only")
+                # a who-may-call rule: the call site itself is the evidence, wherever it is
+                ctx.decide("POS-OWNER", f"{m.rel}|{q}|{norm(c)}", ok, f"`{q}` reads the underlying stream directly, bypassing getc's position bookkeeping", m.rel, c.lineno,
+                           witness="a shebang line skipped with stream.readline() leaves every line number one too small", detail="peekc / peeking / _set_source only", local=True)
     for c in [n for n in ast.walk(hr.tree) if isinstance(n, ast.Attribute) and n.attr in ("_peek_chars", "_saved_chars", "_stream")]:
         ctx.bad("POS-OWNER", f"{HR}|{hr.qual_of(c)}|{c.attr}", f"hy_reader.py touches the character buffer `{c.attr}` directly; all consumption must go through getc", HR, c.lineno)
     ctx.ok("POS-OWNER", f"{HR}|no direct buffer access", "hy_reader.py never touches _peek_chars/_saved_chars/_stream")
